@@ -50,6 +50,13 @@ Proof.
   - apply IH; [exact Hl|]. intros a b Ia Ib. apply Hinj; right; assumption.
 Qed.
 
+Lemma NoDup_app_l {A} (l1 l2 : list A) : NoDup (l1 ++ l2) -> NoDup l1.
+Proof.
+  induction l1 as [|x l1 IH]; cbn; intros H; [constructor|].
+  inversion H as [|x' l' Hx Hl]; subst. constructor; [|apply IH; exact Hl].
+  intros I. apply Hx. apply in_or_app. left. exact I.
+Qed.
+
 (* for any i, the residues (i+0) mod n, ..., (i+n-1) mod n are a permutation of 0..n-1 *)
 Lemma residues_perm a n :
   Permutation (map (fun j => (a + j) mod n) (seq 0 n)) (seq 0 n).
@@ -409,3 +416,534 @@ Proof.
   pose proof (c05_judge_run ops rr_init [] [] rr_rel_init (run_inv_nil _) Hd) as H.
   destruct (rr_run rr_init ops) as [s outs]. exact H.
 Qed.
+
+(* ------------------------------------------------------------------ consecutive dispatches *)
+(* m dispatches in a row with no membership change in between, and what each returned *)
+Fixpoint rr_dispatches (s : rr) (m : nat) : rr * list (option bytes) :=
+  match m with
+  | O => (s, [])
+  | S m' => let '(s1, x) := rr_dispatch s in
+            let '(s2, xs) := rr_dispatches s1 m' in (s2, x :: xs)
+  end.
+
+(* ... which is rr_run on m RDispatch operations *)
+Lemma rr_dispatches_run m : forall s,
+  rr_run s (repeat RDispatch m) =
+  (fst (rr_dispatches s m), map OSent (snd (rr_dispatches s m))).
+Proof.
+  induction m as [|m IH]; intros s; cbn [repeat rr_run rr_step rr_dispatches]; [reflexivity|].
+  destruct (rr_dispatch s) as [s1 x]. rewrite IH.
+  destruct (rr_dispatches s1 m) as [s2 xs]. reflexivity.
+Qed.
+
+(* the backend the (j+1)-th dispatch from state s goes to *)
+Definition rr_target (s : rr) (j : nat) : option bytes :=
+  nth_opt (rr_backends s) ((rr_index s + 1 + j) mod List.length (rr_backends s)).
+
+Lemma rr_dispatches_closed m : forall s, List.length (rr_backends s) <> 0 ->
+  snd (rr_dispatches s m) = map (rr_target s) (seq 0 m) /\
+  rr_backends (fst (rr_dispatches s m)) = rr_backends s /\
+  rr_map (fst (rr_dispatches s m)) = rr_map s.
+Proof.
+  induction m as [|m IH]; intros s N0; cbn [rr_dispatches]; [auto|].
+  rewrite (rr_dispatch_pos s N0).
+  set (s1 := {| rr_index := _; rr_backends := _; rr_map := _ |}).
+  assert (N1 : List.length (rr_backends s1) <> 0) by exact N0.
+  destruct (IH s1 N1) as (IH1 & IH2 & IH3).
+  destruct (rr_dispatches s1 m) as [s2 xs]. cbn [fst snd] in *.
+  split; [|split; [exact IH2|exact IH3]].
+  cbn [seq map]. f_equal.
+  - unfold rr_target. f_equal. f_equal. lia.
+  - rewrite <- seq_shift, map_map, IH1. apply map_ext. intros j.
+    unfold rr_target, s1. cbn [rr_index rr_backends]. f_equal.
+    rewrite <- Nat.add_assoc. rewrite Nat.add_mod_idemp_l by exact N0. f_equal; lia.
+Qed.
+
+Lemma rr_target_period s j : List.length (rr_backends s) <> 0 ->
+  rr_target s (j + List.length (rr_backends s)) = rr_target s j.
+Proof.
+  intros N0. unfold rr_target. f_equal. rewrite Nat.add_assoc. apply mod_plus_period. exact N0.
+Qed.
+
+Lemma rr_targets_window s :
+  Permutation (map (rr_target s) (seq 0 (List.length (rr_backends s)))) (map Some (rr_backends s)).
+Proof.
+  rewrite <- map_nth_opt_seq.
+  change (rr_target s) with
+    (fun j => nth_opt (rr_backends s) ((fun j => (rr_index s + 1 + j) mod List.length (rr_backends s)) j)).
+  rewrite <- (map_map (fun j => (rr_index s + 1 + j) mod List.length (rr_backends s)) (nth_opt (rr_backends s))).
+  apply Permutation_map. apply residues_perm.
+Qed.
+
+(* ---- rr_member ---- *)
+(* NoDup is not needed. *)
+Theorem rr_member : forall s, List.length (rr_backends s) <> 0 ->
+  exists b, snd (rr_dispatch s) = Some b /\ In b (rr_backends s) /\
+            rr_backends (fst (rr_dispatch s)) = rr_backends s /\
+            rr_map (fst (rr_dispatch s)) = rr_map s.
+Proof.
+  intros s N0. rewrite (rr_dispatch_pos s N0). cbn [fst snd rr_backends rr_map].
+  destruct (nth_opt_lt (rr_backends s) ((rr_index s + 1) mod List.length (rr_backends s))) as (b & Hb).
+  { apply Nat.mod_upper_bound. exact N0. }
+  exists b. repeat split; [exact Hb|apply (nth_opt_In _ _ _ Hb)].
+Qed.
+
+Theorem rr_member_empty : forall s, List.length (rr_backends s) = 0 -> rr_dispatch s = (s, None).
+Proof. exact rr_dispatch_zero. Qed.
+
+(* ---- rr_window ---- *)
+(* n consecutive dispatches over n backends reach each backend exactly once (NoDup is not
+   needed: with repeated addresses each is reached as often as it is listed). *)
+Theorem rr_window : forall s, List.length (rr_backends s) <> 0 ->
+  Permutation (snd (rr_dispatches s (List.length (rr_backends s)))) (map Some (rr_backends s)) /\
+  rr_backends (fst (rr_dispatches s (List.length (rr_backends s)))) = rr_backends s.
+Proof.
+  intros s N0. destruct (rr_dispatches_closed (List.length (rr_backends s)) s N0) as (H1 & H2 & _).
+  split; [|exact H2]. rewrite H1. apply rr_targets_window.
+Qed.
+
+Corollary rr_window_list : forall s, List.length (rr_backends s) <> 0 ->
+  exists l, snd (rr_dispatches s (List.length (rr_backends s))) = map Some l /\
+            Permutation l (rr_backends s).
+Proof.
+  intros s N0. destruct (rr_window s N0) as [H _].
+  apply Permutation_map_inv in H. destruct H as (l & E & P).
+  exists l. split; [exact E|apply Permutation_sym; exact P].
+Qed.
+
+(* ---- rr_counts ---- *)
+Definition obytes_dec : forall x y : option bytes, {x = y} + {x <> y}.
+Proof. decide equality. apply (list_eq_dec ascii_dec). Defined.
+
+Section Counts.
+  Variable s : rr.
+  Variable b : bytes.
+  Hypothesis ND : NoDup (rr_backends s).
+  Hypothesis Hb : In b (rr_backends s).
+  Let n := List.length (rr_backends s).
+  Let cnt (M : nat) := count_occ obytes_dec (map (rr_target s) (seq 0 M)) (Some b).
+
+  Lemma counts_n0 : n <> 0.
+  Proof. unfold n. destruct (rr_backends s); [contradiction|discriminate]. Qed.
+
+  Lemma counts_NoDup_some : NoDup (map Some (rr_backends s)).
+  Proof. apply NoDup_map_inj_on; [exact ND|]. intros x y _ _ H. congruence. Qed.
+
+  Lemma counts_shift M : forall k, map (rr_target s) (seq (k + n) M) = map (rr_target s) (seq k M).
+  Proof.
+    induction M as [|M IH]; intros k; cbn [seq map]; [reflexivity|].
+    f_equal; [apply rr_target_period; exact counts_n0|apply (IH (S k))].
+  Qed.
+
+  Lemma counts_window : cnt n = 1.
+  Proof.
+    unfold cnt, n.
+    rewrite (proj1 (Permutation_count_occ obytes_dec _ _) (rr_targets_window s)).
+    apply (proj1 (NoDup_count_occ' obytes_dec _) counts_NoDup_some).
+    apply in_map. exact Hb.
+  Qed.
+
+  Lemma counts_period M : cnt (n + M) = 1 + cnt M.
+  Proof.
+    unfold cnt. rewrite seq_app, map_app, count_occ_app.
+    rewrite (counts_shift M 0).
+    f_equal. exact counts_window.
+  Qed.
+
+  Lemma counts_small r : r < n -> cnt r <= 1.
+  Proof.
+    intros Hr. unfold cnt. apply (proj1 (NoDup_count_occ obytes_dec _)).
+    assert (NDn : NoDup (map (rr_target s) (seq 0 n))).
+    { apply (Permutation_NoDup (l := map Some (rr_backends s))); [|exact counts_NoDup_some].
+      apply Permutation_sym. apply rr_targets_window. }
+    replace n with (r + (n - r)) in NDn by lia.
+    rewrite seq_app, map_app in NDn. apply NoDup_app_l in NDn. exact NDn.
+  Qed.
+
+  Lemma counts_mul q : forall r, cnt (q * n + r) = q + cnt r.
+  Proof.
+    induction q as [|q IH]; intros r; [reflexivity|].
+    replace (S q * n + r) with (n + (q * n + r)) by lia.
+    rewrite counts_period, IH. lia.
+  Qed.
+
+  Lemma counts_total N : cnt N = N / n \/ cnt N = N / n + 1.
+  Proof.
+    pose proof counts_n0 as N0.
+    pose proof (Nat.div_mod N n N0) as E.
+    pose proof (Nat.mod_upper_bound N n N0) as Hr.
+    pose proof (counts_small _ Hr) as Hs.
+    assert (H : cnt N = N / n + cnt (N mod n)).
+    { rewrite E at 1. rewrite Nat.mul_comm. apply counts_mul. }
+    lia.
+  Qed.
+End Counts.
+
+(* After N consecutive dispatches from a state whose rotation list has n distinct
+   addresses, every backend of the list has received floor(N/n) or floor(N/n)+1 of them
+   (the latter is ceil(N/n) whenever it occurs, since then n does not divide N). *)
+Theorem rr_counts : forall s N b, NoDup (rr_backends s) -> In b (rr_backends s) ->
+  let c := count_occ obytes_dec (snd (rr_dispatches s N)) (Some b) in
+  c = N / List.length (rr_backends s) \/ c = N / List.length (rr_backends s) + 1.
+Proof.
+  intros s N b ND Hb. cbv zeta.
+  assert (N0 : List.length (rr_backends s) <> 0) by (apply (counts_n0 s b ND Hb)).
+  rewrite (proj1 (rr_dispatches_closed N s N0)).
+  apply counts_total; assumption.
+Qed.
+
+Corollary rr_counts_balanced : forall s N b1 b2, NoDup (rr_backends s) ->
+  In b1 (rr_backends s) -> In b2 (rr_backends s) ->
+  let c1 := count_occ obytes_dec (snd (rr_dispatches s N)) (Some b1) in
+  let c2 := count_occ obytes_dec (snd (rr_dispatches s N)) (Some b2) in
+  c1 <= c2 + 1 /\ c2 <= c1 + 1.
+Proof.
+  intros s N b1 b2 ND H1 H2. cbv zeta.
+  pose proof (rr_counts s N b1 ND H1) as C1. pose proof (rr_counts s N b2 ND H2) as C2.
+  cbv zeta in C1, C2. lia.
+Qed.
+
+(* the ceiling is only reached when N is not a multiple of n *)
+Corollary rr_counts_exact : forall s q b, NoDup (rr_backends s) -> In b (rr_backends s) ->
+  count_occ obytes_dec (snd (rr_dispatches s (q * List.length (rr_backends s)))) (Some b) = q.
+Proof.
+  intros s q b ND Hb.
+  assert (N0 : List.length (rr_backends s) <> 0) by (apply (counts_n0 s b ND Hb)).
+  rewrite (proj1 (rr_dispatches_closed _ s N0)).
+  pose proof (counts_mul s b ND Hb q 0) as H. cbn in H.
+  rewrite Nat.add_0_r in H. rewrite H. lia.
+Qed.
+
+(* ------------------------------------------------------------------ removal / addition *)
+Lemma rr_remove_absent a s : rr_inv s -> ~ In a (rr_backends (fst (rr_remove a s))).
+Proof.
+  intros (ND & Hmap). unfold rr_remove.
+  destruct (mem_bytes a (rr_map s)) eqn:Em; cbn [fst rr_backends].
+  - intros H. apply (In_remove_first _ _ _ ND) in H. destruct H as [_ H]. congruence.
+  - apply mem_bytes_notIn in Em. intros H. apply Em. apply Hmap. exact H.
+Qed.
+
+Lemma rr_remove_sub a x s : In x (rr_backends (fst (rr_remove a s))) -> In x (rr_backends s).
+Proof.
+  unfold rr_remove. destruct (mem_bytes a (rr_map s)); cbn [fst rr_backends]; [|tauto].
+  apply In_remove_first_sub.
+Qed.
+
+(* an address that is not in the rotation list is never returned, whatever happens, until
+   it is added again *)
+Lemma rr_absent_silent a ops : forall s,
+  ~ In a (rr_backends s) -> Forall (fun o => o <> RAdd a) ops ->
+  ~ In (OSent (Some a)) (snd (rr_run s ops)) /\ ~ In a (rr_backends (fst (rr_run s ops))).
+Proof.
+  induction ops as [|o r IH]; intros s Ha HF; cbn [rr_run].
+  - cbn. tauto.
+  - inversion HF as [|o' r' Ho Hr]; subst.
+    assert (Hstep : snd (rr_step s o) <> OSent (Some a) /\ ~ In a (rr_backends (fst (rr_step s o)))).
+    { destruct o as [a'|a'|]; cbn [rr_step].
+      - cbn [fst snd rr_add rr_backends]. split; [discriminate|].
+        intros H. apply in_app_or in H. destruct H as [H|[H|[]]]; [contradiction|].
+        apply Ho. congruence.
+      - destruct (rr_remove a' s) as [s1 c] eqn:E. cbn [fst snd]. split; [discriminate|].
+        intros H. apply Ha. apply (rr_remove_sub a'). rewrite E. exact H.
+      - destruct (Nat.eq_dec (List.length (rr_backends s)) 0) as [Z|NZ].
+        + rewrite (rr_dispatch_zero s Z). cbn [fst snd]. split; [discriminate|exact Ha].
+        + destruct (rr_member s NZ) as (b & E1 & E2 & E3 & _).
+          destruct (rr_dispatch s) as [s1 x]. cbn [fst snd] in *. subst x. split.
+          * intros H. injection H as ->. contradiction.
+          * rewrite E3. exact Ha. }
+    destruct (rr_step s o) as [s1 x]. cbn [fst snd] in Hstep. destruct Hstep as [Hx Hs1].
+    destruct (IH s1 Hs1 Hr) as [IH1 IH2].
+    destruct (rr_run s1 r) as [s2 xs]. cbn [fst snd] in *. split; [|exact IH2].
+    intros [H|H]; [apply Hx; exact H|apply IH1; exact H].
+Qed.
+
+(* ---- rr_removed_silent ---- *)
+(* Needs the state invariant rr_inv (no repeated address, the map knows the listed
+   addresses), which holds of every state reachable inside the domain (rr_reachable_inv):
+   with a repeated address RemoveBackend would only drop the first copy. *)
+Theorem rr_removed_silent : forall s a ops, rr_inv s ->
+  Forall (fun o => o <> RAdd a) ops ->
+  ~ In (OSent (Some a)) (snd (rr_run (fst (rr_remove a s)) ops)).
+Proof.
+  intros s a ops HI HF.
+  apply (rr_absent_silent a ops _ (rr_remove_absent a s HI) HF).
+Qed.
+
+(* ---- rr_added_joins ---- *)
+(* (neither NoDup nor "a absent" is needed) the n+1 dispatches that follow the addition
+   reach a, and every older backend too *)
+Theorem rr_added_joins : forall s a,
+  let outs := snd (rr_dispatches (rr_add a s) (List.length (rr_backends s) + 1)) in
+  In (Some a) outs /\ forall b, In b (rr_backends s) -> In (Some b) outs.
+Proof.
+  intros s a. cbv zeta.
+  assert (HL : List.length (rr_backends (rr_add a s)) = List.length (rr_backends s) + 1).
+  { cbn [rr_add rr_backends]. rewrite app_length. reflexivity. }
+  assert (N0 : List.length (rr_backends (rr_add a s)) <> 0) by lia.
+  destruct (rr_window _ N0) as [P _]. rewrite HL in P.
+  assert (Hall : forall b, In b (rr_backends s ++ [a]) ->
+                 In (Some b) (snd (rr_dispatches (rr_add a s) (List.length (rr_backends s) + 1)))).
+  { intros b Hb. apply (Permutation_in _ (Permutation_sym P)). apply in_map. exact Hb. }
+  split.
+  - apply Hall. apply in_or_app. right. left. reflexivity.
+  - intros b Hb. apply Hall. apply in_or_app. left. exact Hb.
+Qed.
+
+(* ------------------------------------------------------------------ schedules *)
+(* One lock region of the small-step model never panics and never fails, from ANY state:
+   the index arithmetic never divides by zero nor indexes out of range. *)
+Theorem rr_sstep_total : forall st o, exists st' out, rr_sstep st o = Ok (st', out).
+Proof.
+  intros st o. unfold rr_sstep.
+  destruct o as [a|a| |tid]; try (eexists; eexists; reflexivity).
+  destruct (nth_opt (ss_threads st) tid) as [[pc|]|]; try (eexists; eexists; reflexivity).
+  cbv zeta.
+  destruct (Nat.eqb_spec (List.length (rr_backends (ss_rr st))) 0) as [Z|NZ].
+  - destruct pc as [|i|i [|[|l]]]; eexists; eexists; reflexivity.
+  - destruct pc as [|i|i lft]; try (eexists; eexists; reflexivity).
+    destruct (nth_opt_lt (rr_backends (ss_rr st)) (i mod List.length (rr_backends (ss_rr st))))
+      as (b & Hb).
+    { apply Nat.mod_upper_bound. exact NZ. }
+    rewrite Hb. eexists; eexists; reflexivity.
+Qed.
+
+Theorem rr_sstep_no_panic : forall st o, rr_sstep st o <> Panic.
+Proof.
+  intros st o. destruct (rr_sstep_total st o) as (st' & out & E). rewrite E. discriminate.
+Qed.
+
+(* A Send that delivers, delivers to a backend that is in the rotation list at the moment
+   of the delivery (whatever happened since it obtained its index). *)
+Theorem rr_sstep_delivered_member : forall st o st' tid b,
+  rr_sstep st o = Ok (st', SDelivered tid b) -> In b (rr_backends (ss_rr st)).
+Proof.
+  intros st o st' tid b H. unfold rr_sstep in H.
+  destruct o as [a|a| |t]; try (injection H; discriminate).
+  destruct (nth_opt (ss_threads st) t) as [[pc|]|]; try (injection H; discriminate).
+  cbv zeta in H.
+  destruct (Nat.eqb (List.length (rr_backends (ss_rr st))) 0).
+  - destruct pc as [|i|i [|[|l]]]; injection H; discriminate.
+  - destruct pc as [|i|i lft]; try (injection H; discriminate).
+    destruct (nth_opt (rr_backends (ss_rr st)) (i mod List.length (rr_backends (ss_rr st))))
+      as [b0|] eqn:E; [|discriminate].
+    injection H as _ _ <-. apply (nth_opt_In _ _ _ E).
+Qed.
+
+Theorem rr_srun_total : forall ops st, exists st' outs, rr_srun st ops = Ok (st', outs).
+Proof.
+  induction ops as [|o r IH]; intros st; cbn [rr_srun].
+  - eexists; eexists; reflexivity.
+  - destruct (rr_sstep_total st o) as (st1 & x & E). rewrite E. cbn [rbind].
+    destruct (IH st1) as (st2 & xs & E2). rewrite E2. cbn [rbind].
+    eexists; eexists; reflexivity.
+Qed.
+
+(* replaying the prefix: the k-th output, if a delivery, names a backend that was in the
+   rotation list of the state reached after the first k operations *)
+Lemma rr_srun_delivered ops : forall st st' outs, rr_srun st ops = Ok (st', outs) ->
+  forall k tid b, nth_error outs k = Some (SDelivered tid b) ->
+  exists stk, rr_srun st (firstn k ops) = Ok (stk, firstn k outs) /\
+              In b (rr_backends (ss_rr stk)).
+Proof.
+  induction ops as [|o r IH]; intros st st' outs H k tid b Hk; cbn [rr_srun] in H.
+  - injection H as <- <-. destruct k; discriminate.
+  - destruct (rr_sstep st o) as [[st1 x]| |] eqn:E; cbn [rbind] in H; try discriminate.
+    destruct (rr_srun st1 r) as [[st2 xs]| |] eqn:E2; cbn [rbind] in H; try discriminate.
+    injection H as <- <-.
+    destruct k as [|k]; cbn [nth_error firstn] in *.
+    + injection Hk as ->. exists st. split; [reflexivity|].
+      apply (rr_sstep_delivered_member _ _ _ _ _ E).
+    + destruct (IH st1 st2 xs E2 k tid b Hk) as (stk & Ek & Hin).
+      exists stk. split; [|exact Hin].
+      cbn [rr_srun]. rewrite E. cbn [rbind]. rewrite Ek. reflexivity.
+Qed.
+
+(* MAIN (schedule half): under every interleaving of membership changes, spawned Sends and
+   their lock regions (no domain restriction at all) the pool never panics, the run always
+   completes, and every delivery goes to a backend registered at the moment of delivery. *)
+Theorem C05_schedules_safe : forall ops,
+  rr_srun {| ss_rr := rr_init; ss_threads := [] |} ops <> Panic /\
+  exists st' outs,
+    rr_srun {| ss_rr := rr_init; ss_threads := [] |} ops = Ok (st', outs) /\
+    forall k tid b, nth_error outs k = Some (SDelivered tid b) ->
+      exists stk, rr_srun {| ss_rr := rr_init; ss_threads := [] |} (firstn k ops)
+                    = Ok (stk, firstn k outs) /\
+                  In b (rr_backends (ss_rr stk)).
+Proof.
+  intros ops.
+  destruct (rr_srun_total ops {| ss_rr := rr_init; ss_threads := [] |}) as (st' & outs & E).
+  split; [rewrite E; discriminate|].
+  exists st', outs. split; [exact E|].
+  intros k tid b Hk. apply (rr_srun_delivered ops _ _ _ E k tid b Hk).
+Qed.
+
+(* ------------------------------------------------------------------ what the judge's pieces mean *)
+Lemma c05_nodup_sound l : c05_nodup l = true -> NoDup l.
+Proof.
+  induction l as [|x l IH]; cbn; intros H; [constructor|].
+  apply andb_true_iff in H. destruct H as [H1 H2]. apply negb_true_iff in H1.
+  constructor; [apply mem_bytes_notIn; exact H1|apply IH; exact H2].
+Qed.
+
+(* check (d) of the judge really says "final is a duplicate-free rearrangement of reg" *)
+Lemma c05_perm_sound l reg : c05_perm l reg = true -> NoDup l /\ Permutation l reg.
+Proof.
+  unfold c05_perm. intros H.
+  apply andb_true_iff in H. destruct H as [H H3].
+  apply andb_true_iff in H. destruct H as [H1 H2].
+  apply c05_nodup_sound in H1. apply Nat.eqb_eq in H2.
+  split; [exact H1|]. apply NoDup_Permutation_bis; [exact H1|lia|].
+  intros x Hx. apply mem_bytes_In. apply (proj1 (forallb_forall _ _) H3). exact Hx.
+Qed.
+
+(* ------------------------------------------------------------------ examples (non-vacuity) *)
+Definition xa := s2b "10.0.0.1:5060".
+Definition xb := s2b "10.0.0.2:5060".
+Definition xc := s2b "10.0.0.3:5060".
+Definition xd := s2b "10.0.0.4:5060".
+
+(* three backends, a removal in the middle (which leaves index = 2 >= n = 2), a removal of
+   an unknown address, an addition, and finally an empty pool *)
+Definition ex_ops : list rr_op :=
+  [RAdd xa; RAdd xb; RAdd xc; RDispatch; RDispatch; RDispatch; RDispatch; RDispatch;
+   RRemove xc; RDispatch; RDispatch; RDispatch; RRemove xd; RAdd xd;
+   RDispatch; RDispatch; RDispatch; RDispatch;
+   RRemove xa; RRemove xb; RRemove xd; RDispatch; RAdd xc; RDispatch].
+
+Definition ex_outs : list rr_out :=
+  [OAdded; OAdded; OAdded;
+   OSent (Some xb); OSent (Some xc); OSent (Some xa); OSent (Some xb); OSent (Some xc);
+   ORemoved true; OSent (Some xb); OSent (Some xa); OSent (Some xb); ORemoved false; OAdded;
+   OSent (Some xd); OSent (Some xa); OSent (Some xb); OSent (Some xd);
+   ORemoved true; ORemoved true; ORemoved true; OSent None; OAdded; OSent (Some xc)].
+
+Example ex_domain : rr_domain ex_ops = true.
+Proof. vm_compute. reflexivity. Qed.
+
+Example ex_run : rr_run rr_init ex_ops =
+  ({| rr_index := 0; rr_backends := [xc]; rr_map := [xc] |}, ex_outs).
+Proof. vm_compute. reflexivity. Qed.
+
+Example ex_judged : judge_C05 ex_ops ex_outs [xc] = true.
+Proof. vm_compute. reflexivity. Qed.
+
+Example ex_C05_judged_instance :
+  let '(s, outs) := rr_run rr_init ex_ops in judge_C05 ex_ops outs (rr_backends s) = true.
+Proof. exact (C05_judged ex_ops ex_domain). Qed.
+
+(* the judge is not trivially true: each of these wrong observations is rejected *)
+Definition set_out (k : nat) (x : rr_out) : list rr_out := set_nth ex_outs k x.
+
+Example ex_reject_same_twice :      (* 4th dispatch repeats the 3rd: window broken *)
+  judge_C05 ex_ops (set_out 6 (OSent (Some xa))) [xc] = false.
+Proof. vm_compute. reflexivity. Qed.
+Example ex_reject_removed_served :  (* dispatch to xc after its removal *)
+  judge_C05 ex_ops (set_out 10 (OSent (Some xc))) [xc] = false.
+Proof. vm_compute. reflexivity. Qed.
+Example ex_reject_dropped :         (* request dropped although backends are registered *)
+  judge_C05 ex_ops (set_out 3 (OSent None)) [xc] = false.
+Proof. vm_compute. reflexivity. Qed.
+Example ex_reject_ghost :           (* a backend served although none is registered *)
+  judge_C05 ex_ops (set_out 21 (OSent (Some xa))) [xc] = false.
+Proof. vm_compute. reflexivity. Qed.
+Example ex_reject_closed_flag :
+  judge_C05 ex_ops (set_out 12 (ORemoved true)) [xc] = false.
+Proof. vm_compute. reflexivity. Qed.
+Example ex_reject_final : judge_C05 ex_ops ex_outs [xc; xa] = false.
+Proof. vm_compute. reflexivity. Qed.
+Example ex_reject_short : judge_C05 ex_ops (firstn 23 ex_outs) [xc] = false.
+Proof. vm_compute. reflexivity. Qed.
+Example ex_reject_new_ignored :     (* after adding xd the rotation keeps skipping it *)
+  judge_C05 [RAdd xa; RAdd xb; RDispatch; RAdd xd; RDispatch; RDispatch; RDispatch]
+            [OAdded; OAdded; OSent (Some xb); OAdded;
+             OSent (Some xa); OSent (Some xb); OSent (Some xa)] [xa; xb; xd] = false.
+Proof. vm_compute. reflexivity. Qed.
+
+(* the domain restriction matters: adding an address twice leaves a copy behind that the
+   map no longer knows, and that copy keeps being served after the removal *)
+Example ex_outside_domain :
+  rr_domain [RAdd xa; RAdd xa; RRemove xa; RDispatch] = false /\
+  rr_run rr_init [RAdd xa; RAdd xa; RRemove xa; RDispatch] =
+    ({| rr_index := 0; rr_backends := [xa]; rr_map := [] |},
+     [OAdded; OAdded; ORemoved true; OSent (Some xa)]) /\
+  judge_C05 [RAdd xa; RAdd xa; RRemove xa; RDispatch]
+            [OAdded; OAdded; ORemoved true; OSent (Some xa)] [xa] = false.
+Proof. vm_compute. auto. Qed.
+
+(* a state for the corollaries: three backends, index left at 2 *)
+Definition ex_s3 : rr := fst (rr_run rr_init [RAdd xa; RAdd xb; RAdd xc; RDispatch; RDispatch]).
+
+Example ex_s3_inv : rr_inv ex_s3.
+Proof. apply rr_reachable_inv. vm_compute. reflexivity. Qed.
+
+Example ex_member : snd (rr_dispatch ex_s3) = Some xa /\ List.length (rr_backends ex_s3) <> 0.
+Proof. vm_compute. split; [reflexivity|discriminate]. Qed.
+
+Example ex_window : snd (rr_dispatches ex_s3 3) = [Some xa; Some xb; Some xc].
+Proof. vm_compute. reflexivity. Qed.
+
+Example ex_counts :                (* N = 7 over n = 3: 3, 2, 2 *)
+  map (fun b => count_occ obytes_dec (snd (rr_dispatches ex_s3 7)) (Some b)) [xa; xb; xc] = [3; 2; 2]
+  /\ 7 / 3 = 2.
+Proof. vm_compute. auto. Qed.
+
+(* index >= number of backends after a removal: the next dispatch is still in range *)
+Example ex_index_after_removal :
+  let s := fst (rr_remove xc ex_s3) in
+  rr_index s = 2 /\ List.length (rr_backends s) = 2 /\
+  snd (rr_dispatches s 4) = [Some xb; Some xa; Some xb; Some xa].
+Proof. vm_compute. auto. Qed.
+
+Example ex_removed_silent :
+  ~ In (OSent (Some xc))
+       (snd (rr_run (fst (rr_remove xc ex_s3)) [RDispatch; RAdd xd; RDispatch; RDispatch; RDispatch])).
+Proof.
+  apply rr_removed_silent; [exact ex_s3_inv|].
+  repeat constructor; discriminate.
+Qed.
+
+Example ex_added_joins :
+  snd (rr_dispatches (rr_add xd ex_s3) 4) = [Some xd; Some xa; Some xb; Some xc].
+Proof. vm_compute. reflexivity. Qed.
+
+(* schedules: a Send obtains index 1 (-> xb) and the count 2; xb is removed before the
+   Send reaches getBackend: it delivers to xa, the only backend left (1 mod 1 = 0) *)
+Example ex_schedule_race :
+  rmap snd (rr_srun {| ss_rr := rr_init; ss_threads := [] |}
+              [SAdd xa; SAdd xb; SSpawn; SStep 0; SStep 0; SRemove xb; SStep 0; SStep 0]) =
+  Ok [SNone; SNone; SNone; SNone; SNone; SNone; SDelivered 0 xa; SNone].
+Proof. vm_compute. reflexivity. Qed.
+
+(* all backends vanish while the Send is in its loop (2 iterations granted): it gives up *)
+Example ex_schedule_all_removed :
+  rmap snd (rr_srun {| ss_rr := rr_init; ss_threads := [] |}
+              [SAdd xa; SAdd xb; SSpawn; SStep 0; SStep 0; SRemove xb; SRemove xa;
+               SStep 0; SStep 0; SStep 0]) =
+  Ok [SNone; SNone; SNone; SNone; SNone; SNone; SNone; SNone; SFailed 0; SNone].
+Proof. vm_compute. reflexivity. Qed.
+
+(* two racing Sends and an addition in between *)
+Example ex_schedule_two :
+  rmap snd (rr_srun {| ss_rr := rr_init; ss_threads := [] |}
+              [SAdd xa; SAdd xb; SSpawn; SSpawn; SStep 0; SStep 1; SAdd xc; SStep 1; SStep 0;
+               SStep 0; SStep 1]) =
+  Ok [SNone; SNone; SNone; SNone; SNone; SNone; SNone; SNone; SNone;
+      SDelivered 0 xb; SDelivered 1 xa].
+Proof. vm_compute. reflexivity. Qed.
+
+Print Assumptions C05_judged.
+Print Assumptions rr_reachable_inv.
+Print Assumptions rr_member.
+Print Assumptions rr_member_empty.
+Print Assumptions rr_window.
+Print Assumptions rr_window_list.
+Print Assumptions rr_counts.
+Print Assumptions rr_counts_balanced.
+Print Assumptions rr_counts_exact.
+Print Assumptions rr_removed_silent.
+Print Assumptions rr_added_joins.
+Print Assumptions rr_sstep_total.
+Print Assumptions rr_sstep_no_panic.
+Print Assumptions rr_sstep_delivered_member.
+Print Assumptions rr_srun_total.
+Print Assumptions C05_schedules_safe.
